@@ -41,7 +41,7 @@ struct ByteSource : public Source
    virtual uint32_t Pick(uint32_t n, int cur)
    {
       if (n <= 1) return Record(n, 0, cur);
-      if (bs.done()) return Record(n, (cur >= 0) ? (uint32_t)cur : ((rr++)%n), cur);    // out of bytes: no more preemptions, current thread runs until it blocks
+      if (bs.done()) {rr++; return Record(n, ((cur >= 0)&&(rr%8 != 0)) ? (uint32_t)cur : ((rr/8)%n), cur);}    // out of bytes: mostly let the current thread run on, but hand over regularly so that polling loops cannot starve the others
       const uint8_t b = bs.u8();
       // bias towards staying on the current thread (long runs + few preemptions find more than uniform noise)
       if ((cur >= 0)&&((b & 0xC0) != 0)) return Record(n, (uint32_t)cur, cur);
@@ -260,6 +260,7 @@ private:
       const int nx = cand[(k < cand.size()) ? k : 0];
       if (viaTimeout[(k < cand.size()) ? k : 0]) {_t[nx]->timedOut = true; _timeoutsFired++; if ((_t[nx]->deadline != (uint64_t)-1)&&(_t[nx]->deadline > _vclock)) _vclock = _t[nx]->deadline;}
       if ((curIdx >= 0)&&(nx != from)) _preemptions++;
+      if ((vf::Verbose())&&((_switches < 400)||((_switches%50000) < 60))) {fprintf(stderr, "   [sched %llu] %d -> %d%s  |", (unsigned long long)_switches, from, nx, viaTimeout[(k < cand.size()) ? k : 0] ? " (timeout fires)" : ""); for (size_t i=0; i<_t.size(); i++) fprintf(stderr, " t%zu:%s", i, (_t[i]->state == FINISHED) ? "done" : ((_t[i]->state == BLOCKED) ? _t[i]->why : "run")); fprintf(stderr, "\n");}
       _switches++; _cur = nx; _t[nx]->go = true; _t[nx]->cv.notify_one();
    }
 
